@@ -3,3 +3,4 @@
 //! The harness never decides a property: it builds bytes, calls allsorts, and records facts.
 pub mod sup;
 pub mod util;
+pub mod fontgen;
